@@ -217,5 +217,11 @@ def proto_pipeline(pid, tier, dev_props):
         start = idx + 1
     else:
         raise ToolError("too many hangs/aborts")
+    # cases inside the class of an open finding that showed a deviation: one flushed line each (every process segment counts)
+    devhits = {}
+    for r in allrows:
+        if "devhit" in r:
+            devhits["dev:" + r["devhit"]] = devhits.get("dev:" + r["devhit"], 0) + 1
+    allrows = [r for r in allrows if "devhit" not in r] + [{"summary": True, "cases": 0, "stats": devhits}]
     names = uperlib.asn_names(tier, name="zoo_proto")
     return t, zoo, vec, allrows, incidents, events, names
